@@ -64,12 +64,13 @@ def phase1(task):
     import verify
     from symex import EngineError
     out = {'target': target, 'mode': mode, 'fn': None, 'n': 0, 'error': None, 'paths': 0, 'covers': [], 'wall': 0.0,
-           'bounded': 0, 'results': []}
+           'bounded': 0, 'results': [], 'names': []}
     t0 = time.time()
     try:
         ex, spec, con = get_ex(target, mode, tier)
         out['fn'] = con.fn
         out['n'] = len(ex.obls)
+        out['names'] = [stable(o.name) for o in ex.obls]
         out['paths'] = ex.paths
         out['bounded'] = getattr(ex, 'bounded_cut', 0)
         out['covers'] = verify.check_covers(ex, timeout)
@@ -181,6 +182,7 @@ def main():
                                'where': '%s:%d' % (con.file, con.line), 'model': None, 'probes': {}})
     ctx = mp.get_context('fork')
     results = []
+    skipped_unclaimed = set()
     with ctx.Pool(min(a.jobs, max(1, len(tasks)))) as pool:
         outs = pool.map(phase1, [(t, m, timeout, a.tier) for (t, m) in tasks], chunksize=1)
         jobs = []
@@ -189,8 +191,15 @@ def main():
                 continue
             n = o['n']
             chunk = 4
-            for lo in range(0, n, chunk):
-                jobs.append((o['target'], o['mode'], timeout, a.tier, list(range(lo, min(n, lo + chunk)))))
+            idxs = list(range(n))
+            if a.tier == 'quick' and not a.write_baseline:
+                # obligations that never passed (recorded when the baseline was written) are not part of the claim; the
+                # quick tier does not spend solver time on them (the thorough tier tries them again)
+                skip = set(load_baseline().get(pid + '!unclaimed', []))
+                idxs = [i for i in idxs if o['names'][i] not in skip]
+                skipped_unclaimed.update(nm for nm in o['names'] if nm in skip)
+            for lo in range(0, len(idxs), chunk):
+                jobs.append((o['target'], o['mode'], timeout, a.tier, idxs[lo:lo + chunk]))
         # heavy functions first
         jobs.sort(key=lambda j: -next(o['n'] for o in outs if o['target'] == j[0] and o['mode'] == j[1]))
         outs2 = pool.map(phase2, jobs, chunksize=1)
@@ -259,6 +268,7 @@ def main():
     baseline = load_baseline()
     if a.write_baseline:
         baseline[pid] = sorted(s for s in by_stable if s not in failed)
+        baseline[pid + '!unclaimed'] = sorted(s for s in failed if not any(f['obligation'] == s for f in kf))
         json.dump(baseline, open(os.path.join(ROOT, 'baseline_obligations.json'), 'w'), indent=1, sort_keys=True)
         print('baseline for %s: %d obligations' % (pid, len(baseline[pid])))
     base = set(baseline.get(pid, []))
@@ -326,6 +336,9 @@ def main():
         print('KNOWN-FINDING: property=%s %s (%s)' % (pid, f['what'], f['obligation']))
     for l in sorted(set(notes)) + lines:
         print(l)
+    if skipped_unclaimed:
+        print('not claimed (never discharged; skipped in the quick tier): %d obligation families, e.g. %s' % (
+            len(skipped_unclaimed), ', '.join(sorted(skipped_unclaimed)[:3])))
     if engine_errors or (vac and not violations):
         for n, s in vac:
             print('govc: vacuity guard: %s is %s' % (n, s))
